@@ -37,7 +37,7 @@ ASSUMPTIONS = [
 OK, SUM, BUSY, FATAL = 0x80, 0x82, 0x8d, 0x83
 T_DEFAULT = 1.0          # default timeout (s)
 FATES = ["ok", "lost", "dup", "slow", "deadline", "late1", "late2",
-         "busy", "sum", "fatal", "fatal_late"]
+         "busy", "sum", "fatal", "fatal_late", "busy_dup", "busy_late"]
 CB = ["instant", "stall"]
 
 
@@ -139,6 +139,13 @@ class Endpoint(object):
             return [(2 * T + 4, reply_bytes(data, OK), meta)]
         if f == "busy":
             return [(L, reply_bytes(data, BUSY), meta)]
+        if f == "busy_dup":
+            # the retryable answer is duplicated by the network
+            return [(L, reply_bytes(data, BUSY), meta),
+                    (3 * L, reply_bytes(data, BUSY), dict(meta, copy=2))]
+        if f == "busy_late":
+            # ... or arrives when the command has already been retransmitted
+            return [(T + 2, reply_bytes(data, BUSY), meta)]
         if f == "sum":
             return [(L, reply_bytes(data, SUM), meta)]
         if f == "fatal":
